@@ -88,7 +88,10 @@ def visible_ops(state, limit=None):
         elif k == 'HoleCardsShowingOrMucking':
             out.append(['sm', op.player_index, tuple(op.hole_cards)])
         elif k == 'CompletionBettingOrRaisingTo':
-            out.append(['cbr', op.player_index, op.amount])
+            # an amount that is not an int must not come back as one (the
+            # hand would be replayed in integer chips: other odd-chip splits)
+            out.append(['cbr', op.player_index, op.amount,
+                        'int' if isinstance(op.amount, int) else 'non-int'])
         elif k == 'CheckingOrCalling':
             out.append(['cc', op.player_index, op.amount])
         else:
@@ -455,6 +458,11 @@ def run_shard(seed, shard, of, tier, deadline):
             pol['keep_unknown'] = rng.choice([0.5, 1.0])
             pol['policy'] = rng.choice(['passive', 'passive', 'uniform'])
             res.counters['unknown_card_hands'] += 1
+        if cfg['chip_type'] == 'int' and rng.random() < 0.15:
+            # mixed chips: integer stacks, some raise amounts given as whole
+            # Decimals (the hand turns Decimal at that raise)
+            pol['amount_cast'] = 'Decimal'
+            res.counters['mixed_int_decimal_hands'] += 1
         check_case(res, rng, cfg, pol)
     return res
 
